@@ -625,7 +625,18 @@ def polars_full_join_keys_rule(program, res, rule="C16-S4"):
         raise AnalysisError("Polars _natural_join_step: the join whose type is not a literal (the possible full join) was not found")
     for c in general:
         if any(kw.arg == "coalesce" and isinstance(kw.value, ast.Constant) and kw.value.value is True for kw in c.keywords):
-            res.ok(rule, "Polars: the possibly-full join asks for coalesce=True")
+            # coalesce=True folds the right key of *every* pair into the left key's column and drops the right key: that is the SQL result only
+            # when the two keys of a pair have the same name (one column for both).  With left_on / right_on that may differ, a right-only row
+            # of a full join gets the right key's value in the left key's column where SQL has NULL
+            kws_ = {kw.arg: unparse(kw.value) for kw in c.keywords}
+            same = ("on" in kws_) or (kws_.get("left_on") is not None and kws_.get("left_on") == kws_.get("right_on"))
+            if same:
+                res.ok(rule, "Polars: the possibly-full join asks for coalesce=True over equal-named keys")
+            else:
+                res.fail_at(rule, plj, "polars-full-join-coalesce-folds-differently-named-keys",
+                            f"`join(left_on={kws_.get('left_on')}, right_on={kws_.get('right_on')}, how=…, coalesce=True)`: for a full join Polars then writes the right key into the "
+                            f"left key's column for rows that exist only in the right table — a.natural_join(b, on=[('x','y')], jointype='full') returns x=4 for the right-only row "
+                            f"y=4 where Pandas and SQL return x NULL", c)
             continue
         # the exemption set used before this join: does it let equal-named keys through when the join is a full join?
         node = g.containing_node(c)
@@ -733,6 +744,33 @@ def _s4(program, res):
 NUMERIC_ONLY_SQL_FUNCTIONS = {"isnan"}
 
 
+def pandas_fill_untyped_rule(program, res, rule="C16-S5"):
+    """Pandas fills a shared column cell by cell (`res.loc[mask, c] = …`).  A left column without a single value has no type of its own (float64 NaN,
+    which the type guess rightly ignores): writing text cells into it raises.  The case `mask.all()` has to take the right column whole"""
+    pj = program.method("pandas_base", "PandasModelBase", "_natural_join_step", inherited=False)
+    g = cfgmod.build(pj.node)
+    def _masked_loc(e):
+        # <frame>.loc[<mask>, <column>]  ->  (frame text, mask text)
+        if isinstance(e, ast.Subscript) and isinstance(e.value, ast.Attribute) and e.value.attr == "loc" and isinstance(e.slice, ast.Tuple) and len(e.slice.elts) == 2:
+            return unparse(e.value.value), unparse(e.slice.elts[0])
+        return None
+    # the fill: cells of one column of the merged frame, selected by a mask, are assigned the same rows of another column
+    fills = [n for n in g.stmt_nodes(("stmt",)) if isinstance(n.stmt, ast.Assign) and _masked_loc(n.stmt.targets[0]) is not None
+             and _masked_loc(n.stmt.value) == _masked_loc(n.stmt.targets[0])]
+    if not fills:
+        raise AnalysisError("Pandas _natural_join_step: the cell-wise fill of shared columns was not found")
+    for n in fills:
+        mask = n.stmt.targets[0].slice.elts[0] if isinstance(n.stmt.targets[0].slice, ast.Tuple) else None
+        mname = unparse(mask) if mask is not None else "?"
+        excluded = any(lab is False and f"{mname}.all()" in unparse(b.cond) for b, lab in g.lexical_guards(n))
+        if excluded:
+            res.ok(rule, f"Pandas: the cell-wise fill runs only when some left cell has a value (`{mname}.all()` takes the right column whole)")
+        else:
+            res.fail_at(rule, pj, "cellwise-fill-into-untyped-column",
+                        f"`{unparse(n.stmt)[:80]}` also runs when every left cell is missing: an all-missing left column is float64, and filling it from a text column raises "
+                        f"TypeError (Invalid value for dtype 'float64') — since all-missing columns pass the type check, the join is no longer refused cleanly either", n.stmt)
+
+
 def coalesce_any_type_rule(program, res, rule="C16-S3"):
     """the join's select list coalesces shared columns of any type through the dialect's `coalesce` formatter: a formatter that asks a numeric-only
     question (isNaN) of its operand has to ask it of numbers only (a typeof guard), or every join over a text column fails / misreads the text 'NaN'"""
@@ -758,6 +796,28 @@ def coalesce_any_type_rule(program, res, rule="C16-S3"):
                     before = text[:m.start()].lower()
                     if "typeof(" not in before:
                         bad = (m.group(1), text)
+        # a formatter that repeats its operand's text per level must flatten chains: x.coalesce(y).coalesce(z)… nests binary calls, and k repeats per level
+        # make the text grow as k**depth (Spark: seven columns ran out of memory)
+        repeats = 0
+        for t in _sqlexpr.fold_function(fn):
+            text = _sqlexpr.render(t)
+            repeats = max(repeats, text.count("⟨x⟩"))
+        if repeats >= 2 and not bad:
+            fnode = getattr(fn, "node", fn)
+            flattens = False
+            if isinstance(fnode, ast.AST):
+                # a local helper that recognises a nested coalesce call, and is called where the returned text is put together
+                helpers = {h.name for h in ast.walk(fnode) if isinstance(h, ast.FunctionDef) and h is not fnode
+                           and any(isinstance(c_, ast.Compare) and any(isinstance(k_, ast.Constant) and k_.value == "coalesce" for k_ in ast.walk(c_)) for c_ in ast.walk(h))}
+                for r_ in ast.walk(fnode):
+                    if isinstance(r_, ast.Return) and r_.value is not None and not any(r_ in list(ast.walk(h)) for h in ast.walk(fnode) if isinstance(h, ast.FunctionDef) and h is not fnode):
+                        if any(isinstance(c_, ast.Call) and isinstance(c_.func, ast.Name) and c_.func.id in helpers for c_ in ast.walk(r_.value)):
+                            flattens = True
+            if not flattens:
+                res.fail(rule, f"{mod}:{getattr(fn, 'name', 'coalesce')}", f"coalesce-chain-text-exponential:{cls}",
+                         f"{cls} writes each coalesce operand {repeats} times and does not flatten nested coalesce calls: a.coalesce(b).coalesce(c)… repeats the inner text "
+                         f"{repeats}x per level (7 columns: 355 kB of SQL, Spark OutOfMemoryError)", f"data_algebra/{mod}.py", getattr(fn, "lineno", 0))
+                continue
         if bad:
             res.fail(rule, f"{mod}:{getattr(fn, 'name', 'coalesce')}", f"coalesce-numeric-test-on-any-type:{cls}",
                      f"{cls} formats coalesce as `{bad[1].strip()[:90]}`: {bad[0]}() casts its argument to DOUBLE, and the join's shared columns of any type go through this "
@@ -815,3 +875,4 @@ def run(program, res, tier):
     from . import c03 as _c03
     _c03.empty_frame_types_rule(program, res, rule="C16-S5", methods={"_natural_join_step"})
     missing_column_type_rule(program, res)
+    pandas_fill_untyped_rule(program, res)
